@@ -67,6 +67,13 @@ func main() {
 		f := fmts[r.Pick(len(fmts))]
 		env := pipe.Env{Header: r.Chance(0.5), Trailer: r.Chance(0.5), Ctx: r.PickStr("H1", "ctx")}
 		kind := []string{"app", "perm", "repl"}[r.Pick(3)]
+		if (f.Name == "xml" || f.Name == "json") && r.Chance(0.35) {
+			// the stream target matches at more than one depth and records sit at different depths
+			env.Deep = true
+			if f.Name == "json" {
+				env.Header = false
+			}
+		}
 		var extra []string
 		if env.Header && f.CtxField() != "" && kind != "perm" {
 			// the non-target context the schema can address (same envelope in all runs)
@@ -107,11 +114,15 @@ func main() {
 				if len(fkinds) > len(pipe.FailKinds) && r.Chance(0.12) {
 					recs[i] = pipe.MakeFailing(recs[i], pipe.ReaderFailKinds[r.Pick(len(pipe.ReaderFailKinds))])
 				}
+				recs[i] = f.Place(r, env, recs[i])
 			}
 			return recs
 		}
 		sum.Hist("kind:" + kind)
 		sum.Hist("format:" + f.Name)
+		if env.Deep {
+			sum.Hist("layout:records-at-different-depths")
+		}
 		for _, k := range feats.Keys() {
 			sum.Hist("feature:" + k)
 		}
@@ -201,6 +212,7 @@ func main() {
 			if recs[i].A == "FAIL" {
 				recs[i].A = "ok"
 			}
+			recs[i] = f.Place(r, env, recs[i])
 			fk := fkinds[r.Pick(len(fkinds))]
 			rep := append([]pipe.Rec(nil), recs...)
 			rep[i] = pipe.MakeFailing(rep[i], fk)
@@ -235,8 +247,16 @@ func main() {
 			l2, _ := ids.list(r2)
 			cw.Add(fmt.Sprintf("C10Repl %s %s %s", l1, vh.CoqNat(i), l2), base)
 		}
+		retainedCheck(sum, base)
 	}
 	cw.Flush()
 	sum.CaseFiles = cw.Files
 	sum.Write(o)
+}
+
+// retainedCheck: every []byte Read handed out during this case is still what it was
+func retainedCheck(sum *vh.Summary, base interface{}) {
+	if bad := pipe.CheckRetained(); len(bad) > 0 {
+		sum.Fail("a result slice returned by Transform.Read changed after later Reads: "+bad[0], base, map[string]interface{}{"violations": bad})
+	}
 }
